@@ -772,6 +772,8 @@ class Flow:
                         self.switch_obligation(fn, b, t, dv, explicit_names)
                 if dv is not None and dv[0] == "rulecmp" and record:
                     self.assert_obligation(fn, b, t, dv, st)
+                if dv is not None and dv[0] == "odiscr" and record:
+                    self.let_else_obligation(fn, b, t, dv, st)
                 if dv is not None and dv[0] == "breakdiscr":
                     tg = dict(t["targets"]).get("1", t["otherwise"])
                     outs.append((tg, st))
@@ -858,6 +860,25 @@ class Flow:
         self.obligations[(fn.path, b, "O4")] = {"fn": fn.path, "bb": b, "kind": "O4", "ok": not extra, "span": span, "missing": extra,
                                                  "detail": ("the node can also be %s here, for which the assertion panics" % extra) if extra else "the node is always `%s`" % name,
                                                  "subject": "assert on as_rule()"}
+
+    def let_else_obligation(self, fn, b, t, dv, st):
+        """O2 in its `let Some(x) = it.next() else { panic }` / `match .. { None => unreachable!() }` form."""
+        o = st.get(dv[1]) if dv[1] is not None else None
+        if o is None or o[0] not in ("opt", "optpair"):
+            return
+        tmap = dict(t["targets"])
+        none_tg = tmap.get("0", t["otherwise"] if "1" in tmap else None)
+        if none_tg is None or not self.panics_only(fn, none_tg):
+            return
+        if "pest_consume::parser" in (t.get("mc") or []):
+            return
+        span = t.get("us") or t.get("sp")
+        if o[1] is None:
+            self.obligations[(fn.path, b, "O2")] = {"fn": fn.path, "bb": b, "kind": "O2", "ok": None, "detail": "the iterator's position is not known", "span": span,
+                                                     "subject": "let-else on next()"}
+        else:
+            self.obligations[(fn.path, b, "O2")] = {"fn": fn.path, "bb": b, "kind": "O2", "ok": not o[2], "span": span, "subject": "let-else on next()",
+                                                     "detail": "next()/last() can return None here and the None arm panics" if o[2] else ""}
 
     def switch_obligation(self, fn, b, t, dv, explicit_names):
         ow = t["otherwise"]
